@@ -20,7 +20,7 @@ func c11(c *eng.Ctx, r *eng.Report) {
 		"R11.2 every Memory access of a handler lies inside a region accounted for by the row's memorySize function (operands as entry stack slots), and every row with a memorySize charges memory gas; " +
 		"R11.3 Contract.Gas is written only by NewContract, UseGas (subtracting on the sufficient-gas edge) and the returned-gas refunds of call/create handlers; " +
 		"R11.4 every frame entry tests the depth limit before doing anything, Run brackets depth++ with a deferred depth--; " +
-		"R11.5 precompiles slice their input only under an established length bound, the shared accessor getData clamps the start offset to len(data) before adding the size and clamps the end too, and RunPrecompiledContract charges before running; " +
+		"R11.5 precompiles slice their input only under an established length bound, the shared accessor getData clamps the start offset to len(data) before adding the size and clamps the end too, the jump bitmap has at least floor(len/8)+5 bytes (room for a trailing PUSH32), and RunPrecompiledContract charges before running; " +
 		"R11.6 panics reachable from the interpreter are the reviewed ones; R11.7 overflow flags are consumed; R11.8 Run validates the stack, charges constant and dynamic gas and resizes memory before operation.execute. " +
 		"R11.9 a write attempt in read-only context surfaces as ErrWriteProtection: Run refuses rows flagged `writes` under the interpreter-wide in.readOnly flag (not the frame argument) before operation.execute, and the flag is sticky across nested frames (shared with C12). " +
 		"R11.10 callGas/authCallGas return min(request, a - a/64) with a = available - base, and the four call-family gas functions call callGas(true, contract.Gas, …). " +
@@ -441,6 +441,7 @@ func c11Precompiles(c *eng.Ctx, r *eng.Report) {
 	const rule = "R11.5"
 	r.Min(rule, 20)
 	c11GetData(c, r)
+	c11BitmapCapacity(c, r)
 	rp := c.Func("vm", "RunPrecompiledContract")
 	if r.Anchor(rp != nil, rule, "vm.RunPrecompiledContract") {
 		ok := false
@@ -936,4 +937,68 @@ func reachedOnlyUncappedOrCompared(fn *ssa.Function, ret *ssa.Return, capV ssa.V
 		return false
 	}
 	return !back(ret.Block())
+}
+
+// c11BitmapCapacity: codeBitmap marks up to 32 positions past the last code
+// byte (a trailing PUSH32) and set8 touches byte pos/8+1, so the vector needs
+// floor(len/8)+5 bytes. A shorter vector panics with index out of range on the
+// first jump in code whose length is a multiple of 8 and that ends in PUSH32.
+func c11BitmapCapacity(c *eng.Ctx, r *eng.Report) {
+	const rule = "R11.5"
+	fn := c.Func("vm", "codeBitmap")
+	if !r.Anchor(fn != nil, rule, "vm.codeBitmap") {
+		return
+	}
+	why := "no make(bitvec, …) found"
+	for _, b := range fn.Blocks {
+		for _, in := range b.Instrs {
+			mk, ok := in.(*ssa.MakeSlice)
+			if !ok {
+				continue
+			}
+			// size = (len(code)+c)/8 + k, fold the additive constants
+			k := int64(0)
+			v := mk.Len
+			for {
+				bo, isB := v.(*ssa.BinOp)
+				if !isB || bo.Op != token.ADD {
+					break
+				}
+				if cst, isK := eng.ConstInt(bo.Y); isK {
+					k += cst
+					v = bo.X
+					continue
+				}
+				break
+			}
+			q, isQ := v.(*ssa.BinOp)
+			if !isQ || !((q.Op == token.QUO && constIs(q.Y, 8)) || (q.Op == token.SHR && constIs(q.Y, 3))) {
+				why = "the size is not of the form (len(code)+c)/8 + k: " + eng.Desc(mk.Len)
+				continue
+			}
+			inner := int64(0)
+			x := q.X
+			if bo, isB := x.(*ssa.BinOp); isB && bo.Op == token.ADD {
+				if cst, isK := eng.ConstInt(bo.Y); isK {
+					inner, x = cst, bo.X
+				}
+			}
+			if !strings.Contains(eng.Desc(x), "builtin:len(code)") {
+				why = "the size is not derived from len(code)"
+				continue
+			}
+			// floor((len+inner)/8)+k >= floor(len/8)+5 for all len  <=>  k + floor(inner/8) >= 5
+			if k+inner/8 >= 5 {
+				why = ""
+			} else {
+				why = fmt.Sprintf("the vector has (len(code)+%d)/8+%d bytes; floor(len/8)+5 are needed", inner, k)
+			}
+		}
+	}
+	r.Check(why == "", rule, "vm.codeBitmap:capacity", c.Pos(fn.Pos()), "bit vector has at least floor(len/8)+5 bytes", "codeBitmap: "+why+": for code whose length is a multiple of 8 and that ends in PUSH32 the analysis writes past the vector and the first JUMP panics the host")
+}
+
+func constIs(v ssa.Value, k int64) bool {
+	c, ok := eng.ConstInt(v)
+	return ok && c == k
 }
